@@ -121,6 +121,34 @@ CHECKS['C12'] = dict(
          'replacement; ~640 atomicity schedules; 16 free runs.',
     note='bool/NaN keys not generated. Presence is judged strictly (no tolerated miss).')
 
+CHECKS['C09'] = dict(
+    level='exploration', ref='3/C09',
+    technique='runtime monitoring: eviction monitor hooked into the lock-step RefCache driver (every disappearance is '
+              'judged), public volume() wrapped on the instance, independent volume bound from PRAGMA page_count and '
+              'Settings.size, API-level policy keys kept by the reference',
+    text='~33k calls per quick run over policy x cull_limit x size_limit on Cache and FanoutCache(3), ~3.8k evicting '
+         'writes and ~120 evicting cull() calls observed; each removal set is checked for count <= cull_limit, limit '
+         'reached (two independent measures), policy order against survivors, cull() postconditions, per-shard limit.',
+    note='Order check is tie-tolerant; for LFU an order is accepted if right with or without counting incr as a read. '
+         'Items written and evicted by the same FanoutCache call cannot be attributed to a shard and skip the order check.')
+CHECKS['C15'] = dict(
+    level='exploration', ref='3/C15',
+    technique='runtime monitoring: independent mutual-exclusion witness (holder counter + os.mkdir/rmdir + interval '
+              'sweep) under the schedule fuzzer with virtual sleep, and over free-running OS processes',
+    text='~960 schedules per quick run (Lock, RLock with nesting, BoundedSemaphore 1..3, barrier; shared Cache, own '
+         'Caches, FanoutCache) with ~8k witnessed critical sections, refused foreign/excess releases, bounded progress; '
+         '16 multi-process runs.',
+    note='No expire on locks. Step-capped schedules are counted, never held.')
+CHECKS['C20'] = dict(
+    level='exploration', ref='3/C20',
+    technique='runtime monitoring: linearizability of Averager add/get/pop against a (total,count) model under the '
+              'schedule fuzzer; throttle start-time monitor on the virtual clock (time_func/sleep_func) with '
+              'window-count oracle and bounded-progress check',
+    text='~800 Averager schedules + 16 free-running runs (final (sum,count) exact); ~400 throttle runs (count x seconds '
+         'x arrival pattern x 1-3 callers, ~4.5k starts): every window [t_i,t_j] holds at most count + rate*(t_j-t_i) '
+         'starts, all calls start within a bounded virtual delay.',
+    note='Start instant = the last time_func value the decorator read for that call (the decision instant).')
+
 NOT_YET = {}
 
 
